@@ -164,7 +164,7 @@ def note_known(ctx, names, devs):
 
 PLANS = {
     # property: (families quick, families thorough-extra, aspects judged)
-    "C01": (["flat", "nest1", "nest2", "nest3", "inline1", "inline2", "spread", "dups", "args", "ops", "dirvars", "inputs", "abstract", "absops"], [], {"data", "opchoice"}),
+    "C01": (["flat", "nest1", "nest2", "nest3", "inline1", "inline2", "spread", "dups", "args", "ops", "dirvars", "inputs", "abstract", "absops", "forms"], [], {"data", "opchoice"}),
     "C06": (["fault0", "fault1", "faultnth"], ["fault2"], {"errors", "data"}),
     "C09": (["dirs", "dirvars"], [], {"data", "calls"}),
     "C10": (["defect", "defectabs"], [], {"errors_cover", "calls", "data", "opchoice"}),
@@ -263,6 +263,17 @@ def subscription_selections(ctx):
             ctx.violations.append(v)
 
 
+def borrow_exec(ctx, fams, aspects, label):
+    """The coercion family's properties seen through whole requests: C04 (what resolvers receive: aspect calls) and C05
+    (what the response holds at every position: aspects data and errors) also hold of the execution family's cases - the
+    concrete type chosen under abstract fields, response keys selected twice, failures below them - which the one-field
+    roots of the coercion harness never meet.  Sem.tla prescribes, the three strategies are run."""
+    vecs, uni, devs = enumerate_cases(ctx, fams)
+    rep = replay(ctx, vecs, uni, label, strategies="iface,any,refl")
+    absorb(ctx, rep, label, aspects, devs, ctx.prop)
+    ctx.extra["exec_family_cases_" + label] = len(vecs)
+
+
 def leaf_list_failures(ctx):
     """C06 for the members of lists of leaves in every Go shape a resolver can hand over (typed slices of every kind,
     lists of lists, ListResolvers): Coerce.tla prescribes, per member, the value or null plus ONE error at [key, index].
@@ -306,7 +317,7 @@ def run(ctx):
         quick, more, aspects = PLANS[ctx.prop]
         fams = quick + (more if ctx.tier == "thorough" else [])
         vecs, uni, devs = enumerate_cases(ctx, fams)
-        rep = replay(ctx, vecs, uni, "replay", strategies="iface,any,refl" if ctx.prop in ("C10", "C01") else "iface,any")
+        rep = replay(ctx, vecs, uni, "replay", strategies="iface,any,refl")
         absorb(ctx, rep, "replay", aspects, devs, ctx.prop)
         if ctx.prop in ("C10", "C01"):
             # U-top: the query root type is not called Query and an ordinary object type is (what is a root is decided by the schema)
